@@ -1583,8 +1583,55 @@ fn c10_min<const K: usize>(rep: &mut Report, rng: &mut Rng) {
         rep.expect(ok, "C10 sorting k-mers sorts them colexicographically", || format!("K={} {}", K, s));
     }
 }
+/// ordering of word-backed k-mers over ANY codec width (5- and 6-bit symbols do not divide the word): pairs that differ in exactly
+/// one symbol at every position (the first symbol sits in the LOWEST bits), random pairs, and the minimiser of a sequence
+fn c10_codec<C: Oracle + Ord, const K: usize>(rep: &mut Report, rng: &mut Rng) {
+    use std::cmp::Ordering;
+    let code = |r: usize| C::entry(r).code as usize;
+    let codes = |rows: &[usize]| -> Vec<usize> { rows.iter().map(|&r| code(r)).collect() };
+    let mk = |rows: &[usize]| -> Option<Kmer<C, K>> { Kmer::try_from(&build::<C>(rows)[..]).ok() };
+    let mut pairs: Vec<(Vec<usize>, Vec<usize>)> = vec![];
+    for _ in 0..4 {
+        let base = rand_rows::<C>(rng, K);
+        for pos in [0, K / 2, K - 1] {
+            for _ in 0..3 {
+                let mut other = base.clone();
+                other[pos] = rng.below(C::len());
+                pairs.push((base.clone(), other));
+            }
+            // neighbouring codes at that position (difference in the lowest bit of the symbol)
+            let mut other = base.clone();
+            other[pos] = (0..C::len()).find(|&r| code(r) == code(base[pos]) ^ 1).unwrap_or(base[pos]);
+            pairs.push((base.clone(), other));
+        }
+        pairs.push((base.clone(), rand_rows::<C>(rng, K)));
+        pairs.push((base.clone(), base));
+    }
+    for (a, b) in pairs {
+        let (ka, kb) = match (mk(&a), mk(&b)) { (Some(x), Some(y)) => (x, y), _ => { rep.expect(false, "C10 a k-mer is built from K symbols", || format!("{} K={}", C::NAME, K)); continue; } };
+        rep.case(|| format!("{} K={} {} vs {}", C::NAME, K, ka, kb));
+        let want = colex_cmp(&codes(&a), &codes(&b));
+        rep.expect(ka.cmp(&kb) == want && ka.cmp(&kb) == ka.bs.cmp(&kb.bs) && kb.cmp(&ka) == want.reverse() && ka.partial_cmp(&kb) == Some(want)
+            && (ka < kb) == (want == Ordering::Less) && (ka <= kb) == (want != Ordering::Greater) && ((ka.cmp(&kb) == Ordering::Equal) == (ka == kb)) && ((ka == kb) == (codes(&a) == codes(&b))),
+            "C10 k-mers of every codec width order by the packed integer = colexicographically (last symbol most significant), consistently with equality",
+            || format!("{} K={} {} (bs {:#x}) vs {} (bs {:#x}): got {:?}, want {:?}", C::NAME, K, ka, ka.bs, kb, kb.bs, ka.cmp(&kb), want));
+    }
+    for n in [K + 3, K + 9] {
+        let rows = rand_rows::<C>(rng, n);
+        let s = build::<C>(&rows);
+        rep.case(|| format!("{} min K={} {}", C::NAME, K, s));
+        let (mn, mx) = (s.kmers::<K>().min().unwrap(), s.kmers::<K>().max().unwrap());
+        let (mut best, mut worst) = (codes(&rows[0..K]), codes(&rows[0..K]));
+        for i in 0..=n - K {
+            let w = codes(&rows[i..i + K]);
+            if colex_cmp(&w, &best) == Ordering::Less { best = w.clone(); }
+            if colex_cmp(&w, &worst) == Ordering::Greater { worst = w; }
+        }
+        rep.expect(codes(&rows_of::<C>(&*mn)) == best && codes(&rows_of::<C>(&*mx)) == worst, "C10 min/max over a sequence's k-mers is its colexicographic minimiser/maximiser (every codec width)", || format!("{} K={} {} min={} max={}", C::NAME, K, s, mn, mx));
+    }
+}
 fn c10(_tier: &str, seed: u64) -> Report {
-    let mut rep = Report::new("C10", "all pairs of equal-length DNA sequences of length 1..3 (exhaustive) and IUPAC of length 1..2; min/max/sort of k-mers K in {1,3,8,31} over random sequences");
+    let mut rep = Report::new("C10", "all pairs of equal-length DNA sequences of length 1..3 (exhaustive) and IUPAC of length 1..2; min/max/sort of k-mers K in {1,3,8,31} over random sequences; word-backed k-mers of every ORDERABLE codec (Dna 2, text 8, masked Dna 4, masked Iupac 5, degenerate 1 bit - Iupac and Amino symbols have no Ord; K = 1 .. the largest that fits): pairs differing in one symbol at the first / middle / last position (also in the lowest bit of that symbol), random pairs, min/max of a sequence");
     rep.functions = vec!["derived Ord on Seq (bitvec Ord for BitVec)", "Iterator::min/max/sort over kmers()"];
     let mut rng = Rng::new(seed);
     for n in 1..=3usize {
@@ -1605,6 +1652,12 @@ fn c10(_tier: &str, seed: u64) -> Report {
     c10_min::<8>(&mut rep, &mut rng);
     c10_min::<31>(&mut rep, &mut rng);
     c10_min::<32>(&mut rep, &mut rng);
+    c10_codec::<Dna, 1>(&mut rep, &mut rng); c10_codec::<Dna, 7>(&mut rep, &mut rng);
+    // (Iupac and Amino symbols do not implement Ord in the repository, so their k-mers are not orderable)
+    c10_codec::<text::Dna, 1>(&mut rep, &mut rng); c10_codec::<text::Dna, 8>(&mut rep, &mut rng);
+    c10_codec::<masked::iupac::Iupac, 1>(&mut rep, &mut rng); c10_codec::<masked::iupac::Iupac, 3>(&mut rep, &mut rng); c10_codec::<masked::iupac::Iupac, 12>(&mut rep, &mut rng);
+    c10_codec::<masked::dna::Dna, 4>(&mut rep, &mut rng); c10_codec::<masked::dna::Dna, 16>(&mut rep, &mut rng);
+    c10_codec::<degenerate::dna::Dna, 1>(&mut rep, &mut rng); c10_codec::<degenerate::dna::Dna, 7>(&mut rep, &mut rng); c10_codec::<degenerate::dna::Dna, 64>(&mut rep, &mut rng);
     // pairs of k-mers at full storage width and around the top bit, every storage type
     let edge: [u128; 10] = [0, 1, 2, (1 << 62) - 1, 1 << 62, (1 << 63) - 1, 1 << 63, (1 << 63) + 1, u64::MAX as u128 - 1, u64::MAX as u128];
     let mut vals: Vec<u128> = edge.to_vec();
